@@ -346,11 +346,25 @@ bool can_parse(std::string_view input, const std::string_view* base_input) {
     return false;
   }
 
-  // Relative resolution combines base + input; bound the sum so 3x expansion
-  // of either side cannot push the final href past max_length.
+  // Relative resolution combines base + input; bound the sum so that the
+  // normalized href provably fits. An ASCII byte expands at most 3x
+  // (percent-encoding) and a constant covers what normalization may insert
+  // ("//", "/", an IPv4 number written out: "ws:1" -> "ws://0.0.0.1/").
+  // Non-ASCII input can grow beyond any such bound through IDNA (a 3-byte
+  // label becomes "xn--cckzd0a3n"), so it always takes the full parse.
   const size_t combined =
       input.size() + (base_input == nullptr ? 0 : base_input->size());
-  const bool size_safe = combined <= static_cast<size_t>(max_length) / 3;
+  constexpr auto all_ascii = [](std::string_view s) noexcept {
+    for (const char c : s) {
+      if (static_cast<unsigned char>(c) >= 0x80) {
+        return false;
+      }
+    }
+    return true;
+  };
+  const bool size_safe =
+      static_cast<uint64_t>(combined) * 3 + 32 <= max_length &&
+      all_ascii(input) && (base_input == nullptr || all_ascii(*base_input));
 
   if (size_safe) {
     // Validation-only: no buffer build, host still fully checked.
